@@ -264,10 +264,24 @@ def eval_value(v: dict, dom: bool, conc: Conc) -> dict:
       canon = {'ok': True, 'v': avalue(pg_utils.canonicalize(f), conc)}
     except Exception as ex:  # pylint: disable=broad-except
       canon = {'ok': False, 'v': avalue(None, conc), 'err': type(ex).__name__}
+    # the path-keyed form is a MAPPING: the same entries stored in another order must canonicalize to the same value
+    canonp = []
+    if isinstance(f, dict) and f is not plain:
+      items = list(f.items())
+      orders = [list(reversed(items)), sorted(items, key=lambda kv: str(kv[0]))]
+      shuffled = list(items)
+      random.Random(len(items) * 7919 + sum(len(str(k)) for k, _ in items)).shuffle(shuffled)
+      orders.append(shuffled)
+      for order in orders:
+        try:
+          canonp.append({'ok': True, 'v': avalue(pg_utils.canonicalize(dict(order)), conc)})
+        except Exception as ex:  # pylint: disable=broad-except
+          canonp.append({'ok': False, 'v': avalue(None, conc), 'err': type(ex).__name__})
   except Exception as ex:  # pylint: disable=broad-except
     flat = {'ok': False, 'entries': [], 'err': type(ex).__name__}
     canon = {'ok': False, 'v': avalue(None, conc)}
-  return {'v': v, 'dom': dom, 'logs': logs, 'probes': probes, 'flat': flat, 'canon': canon}
+    canonp = []
+  return {'v': v, 'dom': dom, 'logs': logs, 'probes': probes, 'flat': flat, 'canon': canon, 'canonp': canonp}
 
 
 # ------------------------------------------------------------------------------------------------
